@@ -262,7 +262,11 @@ class EditStream(HTMLHandlerBase):
                 k.toJSON(exclude=exclude, pure=True) for k in context['keys']
             ]
             return jsonify(result)
-        options = self.calculate_options('vod', flask.request.args)
+        try:
+            options = self.calculate_options('vod', flask.request.args)
+        except ValueError as err:
+            logging.info('Invalid CGI parameters: %s', err)
+            return flask.make_response('Invalid CGI parameters', 400)
         options.audioCodec = 'any'
         options.textCodec = None
         options.drmSelection = []
@@ -514,7 +518,12 @@ class EditStreamDefaults(HTMLHandlerBase):
             drms.append(f'{name}-{loc}')
         form['drm'] = ','.join(drms)
         form['events'] = ','.join(flask.request.form.getlist('events'))
-        opts = OptionsRepository.convert_cgi_options(form, defaults=defaults)
+        try:
+            opts = OptionsRepository.convert_cgi_options(form, defaults=defaults)
+        except ValueError as err:
+            logging.info('Invalid stream defaults: %s', err)
+            flask.flash(f'Invalid value: {err}', 'error')
+            return self.get(spk)
         current_stream.defaults = flatten(opts.remove_default_values(defaults))
         models.db.session.commit()
         flask.flash('Saved stream defaults', 'success')
